@@ -62,6 +62,9 @@ def main(args):
         from . import selftest
         n = int(args[args.index("--n") + 1]) if "--n" in args else 200
         return selftest.determinism(seed, n)
+    if cmd == "soak-text":
+        from . import soak
+        return soak.run(args[1:])
     if cmd == "mutants":
         from . import selftest
         return selftest.mutants(args[1:])
